@@ -656,6 +656,29 @@ func runC10(c *Ctx) {
 					}
 					c.check(got == w.src, "R3", fmt.Sprintf("%s: Request.%s ← %s", tn, w.dst, w.src), p.Pos(body.Instrs[0].Pos()), "copied from the packet's "+w.src, fmt.Sprintf("Request.%s of a %s is taken from %q, expected %q", w.dst, tn, got, w.src))
 				}
+				if tn == "sshFxpOpenPacket" {
+					// OPEN carries two flag words: pflags and the attribute flags that say how to read Attrs
+					conveyed := false
+					for b := range region {
+						for _, in := range b.Instrs {
+							st, ok := in.(*ssa.Store)
+							if !ok {
+								continue
+							}
+							if fa, ok := st.Addr.(*ssa.FieldAddr); ok {
+								if t, _, _, _ := fieldOf(fa); typeName(t) == "Request" {
+									for _, l := range leavesOf(st.Val) {
+										if l.Kind == leafFieldLoad && l.Field == "Flags" {
+											conveyed = true
+										}
+									}
+								}
+							}
+						}
+					}
+					c.check(conveyed, "R3", "sshFxpOpenPacket: attribute flags reach the handler", p.Pos(body.Instrs[0].Pos()), "copied into the Request",
+						"the attribute flags word of OPEN is not copied into the Request (Request.Flags holds pflags): AttrFlags() and Attributes() of an Open request interpret the open flags as attribute flags, so the handler cannot read the attributes the client sent")
+				}
 			}
 		}
 		// filecmd copies FSETSTAT's flags and attrs
